@@ -6,6 +6,15 @@
 //   inl <pb> <pr> <pc> <sb> <sr> <sc> <la>
 //        -> "inl can=<0|1> inline=<0|1> rb=<pb> <pr> <pc> <sb> <la>"  (ts_subtree_can_inline + a leaf
 //           built by ts_subtree_new_leaf, values read back through the accessors)
+//   pw sub N <cap> | pw sub A | pw sub F <ord>        SubtreePool free list (ts_subtree_pool_allocate/free)
+//   pw node N 0    | pw node A | pw node F <ord>       stack node pool (stack_node_new/stack_node_release)
+//        -> "pw obj=<ordinal or -> pool=<cached> mallocs=<n> frees=<n>"
+//   cl N | cl M <max> | cl A | cl R <id> | cl X        CaptureListPool of query.c
+//        -> "cl id=<id or NONE or -> size=<lists> free=<free count> empty=<0|1>"
+//   ess <len> <seed>                                   ExternalScannerState init/copy/data/eq/delete
+//        -> "ess heap=<0|1> allocs=<n> rb=<0|1> eq=<0|1> neq=<0|1> copyallocs=<n> copyrb=<0|1> frees=<n>"
+//   al N <prev|-1> <state> | al L <self> <node> | al P  stack_node_add_link on a graph of stack nodes
+//        -> "al <id>:<t1>,<t2>…;<id>:…"
 //   fuzz <seed> <iters>   (only useful with -DTSV_PARSER_C: adversarial API use for sanitizer builds)
 #include TSV_REPO_LIB_C
 #include <stdio.h>
@@ -23,6 +32,17 @@ static void print_arr(U32Array *a) {
   for (uint32_t i = 0; i < a->size; i++) printf(" %u", *array_get(a, i));
   printf("\n");
 }
+
+static long n_mallocs = 0, n_frees = 0;
+static void *cm_malloc(size_t n) { n_mallocs++; return malloc(n); }
+static void *cm_calloc(size_t a, size_t b) { n_mallocs++; return calloc(a, b); }
+static void *cm_realloc(void *p, size_t n) { if (!p) n_mallocs++; return realloc(p, n); }
+static int cm_keep = 0; // protocols that identify objects by address never give memory back (no address reuse)
+static void cm_free(void *p) { if (p) n_frees++; if (!cm_keep) free(p); }
+
+#define MAXOBJ 4096
+static void *objs[MAXOBJ]; static unsigned nobjs = 0;
+static unsigned ordinal_of(void *p) { for (unsigned i = 0; i < nobjs; i++) if (objs[i] == p) return i; objs[nobjs] = p; return nobjs++; }
 
 static uint64_t rng_state;
 static uint64_t rnd(void) {
@@ -117,6 +137,14 @@ int main(void) {
   fake.symbol_count = 4;
   fake.symbol_metadata = md;
   SubtreePool pool = ts_subtree_pool_new(4);
+  // second set of objects for the pool / capture-list / link protocols
+  SubtreePool spool = ts_subtree_pool_new(0);
+  StackNodeArray npool = array_new();
+  SubtreePool nsub = ts_subtree_pool_new(0);
+  CaptureListPool clp = capture_list_pool_new();
+  StackNode *gnodes[256]; unsigned ngnodes = 0;
+  StackNodeArray gpool = array_new();
+  ts_set_allocator(cm_malloc, cm_calloc, cm_realloc, cm_free);
   while (fgets(line, sizeof line, stdin)) {
     char *tok = strtok(line, " \n");
     if (!tok) continue;
@@ -148,6 +176,90 @@ int main(void) {
       printf("inl can=%d inline=%d rb=%u %u %u %u %u %u %u\n", can, leaf.data.is_inline, p.bytes, p.extent.row, p.extent.column,
              s.bytes, s.extent.row, s.extent.column, ts_subtree_lookahead_bytes(leaf));
       ts_subtree_release(&pool, leaf);
+    } else if (!strcmp(tok, "pw")) {
+      char *kind = strtok(NULL, " \n"), *op = strtok(NULL, " \n"), *arg = strtok(NULL, " \n");
+      if (!kind || !op) continue;
+      bool sub = !strcmp(kind, "sub");
+      cm_keep = 1;
+      long m0 = n_mallocs, f0 = n_frees; (void)m0; (void)f0;
+      char obj[32] = "-";
+      if (op[0] == 'N') {
+        nobjs = 0;
+        if (sub) { ts_subtree_pool_delete(&spool); spool = ts_subtree_pool_new(arg ? (uint32_t)strtoul(arg, NULL, 10) : 0); }
+        else { for (uint32_t i = 0; i < npool.size; i++) ts_free(*array_get(&npool, i)); array_clear(&npool); }
+        n_mallocs = 0; n_frees = 0;
+      } else if (op[0] == 'A') {
+        void *p = sub ? (void *)ts_subtree_pool_allocate(&spool) : (void *)stack_node_new(NULL, NULL_SUBTREE, false, 1, &npool);
+        snprintf(obj, sizeof obj, "%u", ordinal_of(p));
+      } else if (op[0] == 'F' && arg) {
+        unsigned o = (unsigned)strtoul(arg, NULL, 10);
+        if (o < nobjs) {
+          if (sub) ts_subtree_pool_free(&spool, (SubtreeHeapData *)objs[o]);
+          else stack_node_release((StackNode *)objs[o], &npool, &nsub);
+          snprintf(obj, sizeof obj, "%u", o);
+        }
+      }
+      printf("pw obj=%s pool=%u mallocs=%ld frees=%ld\n", obj, sub ? spool.free_trees.size : npool.size, n_mallocs, n_frees);
+    } else if (!strcmp(tok, "cl")) {
+      char *op = strtok(NULL, " \n"), *arg = strtok(NULL, " \n");
+      if (!op) continue;
+      char idb[32] = "-";
+      if (op[0] == 'N') { capture_list_pool_delete(&clp); clp = capture_list_pool_new(); }
+      else if (op[0] == 'M' && arg) clp.max_capture_list_count = (uint32_t)strtoul(arg, NULL, 10);
+      else if (op[0] == 'A') {
+        uint32_t id = capture_list_pool_acquire(&clp);
+        if (id == CAPTURE_LIST_NONE) snprintf(idb, sizeof idb, "NONE"); else snprintf(idb, sizeof idb, "%u", id);
+      } else if (op[0] == 'R' && arg) { capture_list_pool_release(&clp, (uint32_t)strtoul(arg, NULL, 10)); snprintf(idb, sizeof idb, "%s", arg); }
+      else if (op[0] == 'X') capture_list_pool_reset(&clp);
+      printf("cl id=%s size=%u free=%u empty=%d\n", idb, clp.list.size, clp.free_capture_list_count, (int)capture_list_pool_is_empty(&clp));
+    } else if (!strcmp(tok, "ess")) {
+      char *la = strtok(NULL, " \n"), *sa = strtok(NULL, " \n");
+      unsigned len = la ? (unsigned)strtoul(la, NULL, 10) : 0;
+      rng_state = sa ? strtoull(sa, NULL, 10) : 1;
+      static char data[4096], other[4096];
+      if (len > sizeof data) len = sizeof data;
+      for (unsigned i = 0; i < len; i++) data[i] = (char)rnd();
+      memcpy(other, data, len); if (len) other[len / 2] ^= 1;
+      long m0 = n_mallocs, f0 = n_frees;
+      ExternalScannerState st; memset(&st, 0, sizeof st);
+      ts_external_scanner_state_init(&st, data, len);
+      long a1 = n_mallocs - m0;
+      int rb = memcmp(ts_external_scanner_state_data(&st), data, len) == 0;
+      int eq = ts_external_scanner_state_eq(&st, data, len);
+      int neq = len ? !ts_external_scanner_state_eq(&st, other, len) : 1;
+      long m1 = n_mallocs;
+      ExternalScannerState cp = ts_external_scanner_state_copy(&st);
+      long a2 = n_mallocs - m1;
+      int crb = memcmp(ts_external_scanner_state_data(&cp), data, len) == 0;
+      ts_external_scanner_state_delete(&st);
+      ts_external_scanner_state_delete(&cp);
+      printf("ess heap=%d allocs=%ld rb=%d eq=%d neq=%d copyallocs=%ld copyrb=%d frees=%ld\n",
+             (int)(len > sizeof(st.short_data)), a1, rb, eq, neq, a2, crb, n_frees - f0);
+    } else if (!strcmp(tok, "al")) {
+      char *op = strtok(NULL, " \n"), *x = strtok(NULL, " \n"), *y = strtok(NULL, " \n");
+      if (!op) continue;
+      // every link carries the same one-byte leaf: a node's position is its depth, as on a real parse stack
+      Length z = {0, {0, 0}}, one = {1, {0, 1}};
+      Subtree leaf0 = ts_subtree_new_leaf(&pool, 1, z, one, 0, 3, false, false, false, &fake);
+      if (op[0] == 'C') { ngnodes = 0; }
+      else if (op[0] == 'N' && x && y && ngnodes < 256) {
+        long prev = strtol(x, NULL, 10);
+        gnodes[ngnodes] = stack_node_new(prev >= 0 && (unsigned)prev < ngnodes ? gnodes[prev] : NULL, leaf0, false,
+                                         (TSStateId)strtoul(y, NULL, 10), &gpool);
+        ngnodes++;
+      } else if (op[0] == 'L' && x && y) {
+        unsigned a = (unsigned)strtoul(x, NULL, 10), b = (unsigned)strtoul(y, NULL, 10);
+        if (a < ngnodes && b < ngnodes) stack_node_add_link(gnodes[a], (StackLink) {gnodes[b], leaf0, false}, &nsub);
+      }
+      printf("al");
+      for (unsigned i = 0; i < ngnodes; i++) {
+        printf(" %u:", i);
+        for (unsigned k = 0; k < gnodes[i]->link_count; k++) {
+          unsigned t = 999; for (unsigned j = 0; j < ngnodes; j++) if (gnodes[j] == gnodes[i]->links[k].node) t = j;
+          printf("%s%u", k ? "," : "", t);
+        }
+      }
+      printf("\n");
     } else if (!strcmp(tok, "fuzz")) {
 #ifdef TSV_PARSER_C
       char *s = strtok(NULL, " \n"), *i = strtok(NULL, " \n");
